@@ -491,6 +491,14 @@ func (n *vNet) NewPuppet(name, ip string, protos ...protocol.ID) *vPuppet {
 
 func (p *vPuppet) ID() peer.ID { return p.h.ID() }
 
+// Unhandle makes the puppet stop speaking its protocols: a stream the node opens to it from now on fails in
+// protocol negotiation (its own streams stay as they are).
+func (p *vPuppet) Unhandle() {
+	for _, proto := range p.protos {
+		p.h.RemoveStreamHandler(proto)
+	}
+}
+
 func (p *vPuppet) shutdown() {
 	p.cancel()
 	p.mu.Lock()
